@@ -14,6 +14,9 @@ optional-attribute annotation anywhere, attribute names normalised.
 -/
 import CtyModel.Lemmas.WFCall
 import CtyModel.Props.C02
+import CtyModel.Lemmas.d06Cons
+import CtyModel.Lemmas.d06WF
+import CtyModel.Props.C17Json
 namespace CtyModel
 namespace C06
 open Value
@@ -259,6 +262,134 @@ theorem accessors_total_index (e : Ty) (vs : List Payload) (i : Nat) (hi : i < v
   have hs : vs[i]? = some vs[i] := by simp [hi]
   rw [hs] at h
   exact ⟨_, h, wf_index _ _ _ hv h⟩
+
+/-! ## d06 — "strings, attribute names and map keys are NFC-normalized": ESTABLISHED by the constructors
+
+`wf_mapVal` / `wf_objectVal` above are about `Gocty.mapVal` / `Gocty.objectVal`, whose keys "arrive
+normalised and strictly ascending" (hypotheses `hasc`, `hk`).  `D06.mapValN` / `D06.objectValN`
+(CtyModel/d06Cons.lean, diffed against `cty.MapVal` / `cty.ObjectVal` on raw, non-NFC and colliding keys by
+the `c06.mapvaln` / `c06.objectvaln` correspondence) contain the constructors' own `NormalizeString` step:
+nothing is assumed of the raw keys.  `norm` is the oracle for `ctystrings.Normalize`; the two laws used —
+`nfc (norm s)` and `norm (norm s) = norm s` — are probed on the real library on every run. -/
+
+/-- `MapVal` on RAW keys (any strings, in the order the Go `range` happens to visit them): whenever it returns,
+given well-formed members, the result is well-formed — in particular its keys are NFC and distinct. -/
+theorem wf_mapVal_normalizing (norm : String → String) (hn : ∀ s, nfc (norm s) = true) {ks : List String}
+    {ws : List Value} {r : Value} (h : D06.mapValN norm ks ws = .ok r) (hws : ∀ w ∈ ws, w.WF nfc = true) :
+    r.WF nfc = true := D06.wf_mapValN norm hn h hws
+
+/-- `ObjectVal` on RAW attribute names (`cty.Object` inside it normalises the names a second time, hence
+`norm_idem`): always well-formed given well-formed attribute values — attribute names NFC, the value's
+attribute set equal to the type's. -/
+theorem wf_objectVal_normalizing (norm : String → String) (hn : ∀ s, nfc (norm s) = true)
+    (hidem : ∀ s, norm (norm s) = norm s) {ks : List String} {ws : List Value}
+    (hws : ∀ w ∈ ws, w.WF nfc = true) : (D06.objectValN norm ks ws).WF nfc = true :=
+  D06.wf_objectValN norm hn hidem hws
+
+/-- the keys of the result are exactly normal forms of raw keys (none invented) -/
+theorem objectVal_names_are_normalized_inputs (norm : String → String) (ks : List String) (ws : List Value)
+    (hl : ks.length = ws.length) : ∀ k ∈ (D06.buildMap norm ks ws).1, ∃ s ∈ ks, k = norm s :=
+  D06.objectValN_keys norm ks ws hl
+
+/-- keys that are already normal and ascending go through unchanged: on such keys the constructor with the
+normalisation step IS the constructor of `wf_mapVal` (`Gocty.mapVal`) -/
+theorem mapVal_normalizing_fixed (norm : String → String) (ks : List String) (ws : List Value)
+    (hl : ks.length = ws.length) (ha : Ty.strictAsc ks = true) (hfix : ∀ k ∈ ks, norm k = k) :
+    D06.mapValN norm ks ws = Gocty.mapVal ks ws := by
+  unfold D06.mapValN Gocty.mapVal
+  rw [D06.buildMap_fixed norm ks ws hl ha hfix]
+  rfl
+
+/-! non-vacuity: a normaliser that really changes a key (the decomposed "\u00e9"), two raw keys that collide -/
+def normE (s : String) : String := if s = "e\u0301" then "\u00e9" else s
+def nfcE (s : String) : Bool := s != "e\u0301"
+theorem normE_nfc : ∀ s, nfcE (normE s) = true := by
+  intro s; unfold normE nfcE; split <;> simp_all
+theorem normE_idem : ∀ s, normE (normE s) = normE s := by
+  intro s; unfold normE; split <;> simp_all
+example : (match D06.mapValN normE ["k", "e\u0301", "\u00e9"] [⟨.string, .s "1"⟩, ⟨.string, .s "2"⟩, ⟨.string, .marked ["m"] (.s "3")⟩] with
+    | .ok r => r.WF nfcE && (match r.v with
+        | .smap ks [.s "1", .marked _ (.s "3")] => ks == ["k", "\u00e9"]   -- the later write to "é" wins
+        | _ => false)
+    | _ => false) = true := by decide
+example : Value.WF nfcE ⟨.map .string, .smap ["e\u0301"] [.s "1"]⟩ = false := by decide
+example : (D06.objectValN normE ["e\u0301", "a"] [⟨.string, .s "1"⟩, ⟨.list .bool, .seq [.b true]⟩]).WF nfcE = true := by decide
+
+/-! ## d06 — "sets hold no … duplicate members", stated so that it cannot pass for the wrong reason
+
+`Value.WF`'s clause `noDup` reads a member `Equals` that is not `.ok` (the unmodelled capsule comparison,
+a panic) as "not equivalent".  `Value.WFc cid nfc` (CtyModel/d06WF.lean) is `WF` with the clause at full
+strength: in every set at every depth, every pair of members has an `Equals` the model evaluates, and the
+answer is not "known true"; capsule leaves are compared by the abstract tagging `cid` (any equivalence on
+capsule payloads; the harness sends pointer identity, and the `c06.equalsc` correspondence diffs
+`Value.Equals` on capsule-bearing operands against the model on the tagged operands).  The driver's `wfc`
+verb — the judge of every value the harness sees — evaluates `WFc`. -/
+
+/-- Full-strength reading of the OLD clause: what `Value.WF` accepts holds no duplicate members, whatever the
+capsule equality.  FALSE — kept visible; see the counterexample. -/
+def WFImpliesDuplicateFree : Prop :=
+  ∀ (cid : Nat → Nat) (v : Value), v.WF (fun _ => true) = true → D06.dupFreeC cid v = true
+
+/-- a set holding the SAME capsule twice (also inside one-element tuples): accepted by `WF`, rejected by `WFc`;
+the set of two different capsules is accepted by both -/
+theorem wfImpliesDuplicateFree_counterexample :
+    Value.WF (fun _ => true) ⟨.set (.capsule 1), .sset [5, 5] [.caps, .caps]⟩ = true ∧
+    Value.WFc (D06.cidOf [1, 1]) (fun _ => true) ⟨.set (.capsule 1), .sset [5, 5] [.caps, .caps]⟩ = false ∧
+    Value.WFc (D06.cidOf [1, 2]) (fun _ => true) ⟨.set (.capsule 1), .sset [5, 5] [.caps, .caps]⟩ = true ∧
+    Value.WF (fun _ => true) ⟨.set (.tuple [.capsule 1]), .sset [5, 5] [.seq [.caps], .seq [.caps]]⟩ = true ∧
+    Value.WFc (D06.cidOf [7, 7]) (fun _ => true) ⟨.set (.tuple [.capsule 1]), .sset [5, 5] [.seq [.caps], .seq [.caps]]⟩ = false :=
+  D06.wrong_reason_witness
+
+theorem wfImpliesDuplicateFree_false : ¬ WFImpliesDuplicateFree := by
+  intro h
+  have := h (D06.cidOf [1, 1]) ⟨.set (.capsule 1), .sset [5, 5] [.caps, .caps]⟩ (by decide)
+  revert this
+  decide
+
+/-- the strict predicate implies the one all the `wf_…` theorems are about -/
+theorem wfc_implies_wf {cid : Nat → Nat} {v : Value} (h : v.WFc cid nfc = true) : v.WF nfc = true :=
+  D06.WF_of_WFc h
+
+/-- the strict duplicate clause implies the old one, and is the same wherever `Equals` evaluates on all pairs -/
+theorem strict_noDup_implies_noDup (e : Ty) (vs : List Payload) (h : D06.noDupS e vs = true) : noDup e vs = true :=
+  D06.noDup_of_noDupS e vs h
+theorem strict_noDup_iff_of_pairsOk (e : Ty) (vs : List Payload) (hp : pairsOk e vs = true) :
+    D06.noDupS e vs = true ↔ noDup e vs = true :=
+  ⟨D06.noDup_of_noDupS e vs, D06.noDupS_of_noDup e vs hp⟩
+
+/-- for a value whose type mentions no capsule type the oracle is irrelevant -/
+theorem wfc_oracle_irrelevant_without_capsules (cid cid' : Nat → Nat) {v : Value} (hc : D06.hasCapsTy v.ty = false) :
+    v.WFc cid nfc = v.WFc cid' nfc := D06.WFc_of_noCaps cid cid' hc
+
+/-- `SetVal` (hypotheses of `wf_setVal_partial`): below its one mark layer the result is a set whose members are
+STRICTLY duplicate-free.  With members relabelled by `D06.decap cid` this is the statement for capsule-bearing
+members under the capsule equality `cid`. -/
+theorem setVal_strictly_duplicate_free {ws : List Value} {hs : List Int} {r : Value} (h : setValH ws hs = .ok r)
+    (hws : ∀ w ∈ ws, w.WF nfc = true)
+    (hok : ∀ et, Gocty.elemTypeOf .dyn (ws.map setMember) = .ok et →
+      setRulesOk et ((Gocty.payloads (ws.map setMember)).zip hs) = true) :
+    ∃ et ids vs, r.unmark = ⟨.set et, .sset ids vs⟩ ∧ D06.noDupS et vs = true :=
+  D06.setVal_noDupS h hws hok
+
+/-- non-vacuity: `SetVal` of the same capsule twice and another one (tags 4, 4, 9), relabelled — one member is
+dropped, and the result passes the strict judge -/
+example : (match setValH [D06.decap (D06.cidOf [4]) ⟨.capsule 1, .caps⟩, D06.decap (D06.cidOf [4]) ⟨.capsule 1, .caps⟩,
+      D06.decap (D06.cidOf [9]) ⟨.capsule 1, .marked ["m"] .caps⟩] [5, 5, 5] with
+    | .ok r => r.WFc (fun _ => 0) (fun _ => true) && r.isMarked && (lengthInt r.unmark == .ok 2)
+    | _ => false) = true := by decide
+example : setRulesOk (.tuple [.number]) [(.seq [.n (Num.ofNat 4)], 5), (.seq [.n (Num.ofNat 4)], 5), (.seq [.n (Num.ofNat 9)], 5)] = true := by
+  decide
+
+/-! ## d06 — decoders: "any value returned by a … decoder" -/
+
+/-- `json.Unmarshal` (cty/json), the REAL decoder model of C17 (`JsonVal.unmarshalTop`): a value it returns is
+well-formed, for every token tree and every requested type with normalised attribute names — relative to the
+oracle laws `C17Json.Laws` (norm idempotent; set hash coherent with `Equivalent`).  "NFC" is read as "fixed
+point of `norm`". -/
+theorem wf_jsonUnmarshal (env : JsonVal.JEnv) (hl : C17Json.Laws env) (j : Json) (ty : Ty) (v : Value)
+    (hty : Ty.wf ty = true) (hn : Ty.namesAll (C17Json.nfcOf env.norm) ty = true)
+    (h : JsonVal.unmarshalTop env j ty = .ok v) : v.WF (C17Json.nfcOf env.norm) = true :=
+  C17.json_ok_wellformed env hl j ty v hty hn h
 
 /-! ## non-vacuity: the hypotheses are met by a nested, marked, partly unknown value, and the
 conclusions are not trivially true (neighbouring ill-formed values are rejected by `WF`) -/
